@@ -1,0 +1,27 @@
+//! Verification hooks for `iroh-dns`. Only compiled with the `verif-hooks` feature.
+//!
+//! Without an installed override every function here is a no-op passthrough, so enabling the
+//! feature does not change behaviour.
+
+use std::cell::RefCell;
+
+/// A per-thread replacement for the wall-clock reading in [`crate::pkarr::Timestamp::now`]:
+/// receives the real reading (microseconds since the UNIX epoch), returns the one to use.
+pub type ClockFn = Box<dyn FnMut(u64) -> u64>;
+
+thread_local! {
+    static CLOCK: RefCell<Option<ClockFn>> = const { RefCell::new(None) };
+}
+
+/// Installs (or removes) the clock override of the calling thread.
+pub fn set_thread_clock(f: Option<ClockFn>) {
+    CLOCK.with(|c| *c.borrow_mut() = f);
+}
+
+/// Applies the calling thread's clock override, if any, to a wall-clock reading.
+pub(crate) fn clock_micros(real: u64) -> u64 {
+    CLOCK.with(|c| match c.borrow_mut().as_mut() {
+        Some(f) => f(real),
+        None => real,
+    })
+}
